@@ -88,6 +88,8 @@ def run_cbmc(cfile, entry, unwind, timeout, extra=(), mem_gb=24, unwindset=()):
     cmd = base + ['-I', RT, '-I', os.path.dirname(cfile), cfile, '--function', entry, '--unwind', str(unwind)]
     for u in unwindset:
         cmd += ['--unwindset', u]
+    if '--object-bits' in extra:      # a spec may ask for more object bits than the default
+        i = cmd.index('--object-bits'); del cmd[i:i + 2]
     cmd += list(extra)
     rc, so, se, dt = run(cmd, timeout=timeout, mem_gb=mem_gb)
     res = {'entry': entry, 'wall_s': round(dt, 2), 'rc': rc, 'props': [], 'status': None, 'cmd': ' '.join(cmd)}
